@@ -500,5 +500,169 @@ pub proof fn lemma_av_kind_range(a: crate::avp::AVP)
     ensures 0 <= a.av().kind < 65536,
 { }
 
+
+// =====================================================================================================
+// Spec-level theorems: the properties as lemmas over the specification functions that the code is
+// proved equal to (C05 `equiv` clauses, C06 `bytes` clauses).
+
+// ---- flag word ------------------------------------------------------------------------------------------
+pub proof fn lemma_flag_word(control: bool, l: bool, s: bool, o: bool, p: bool, version: int)
+    requires 0 <= version <= 15,
+    ensures ({ let w = spec_flag_word(control, l, s, o, p, version);
+        0 <= w < 65536 && fw_t(w) == control && fw_l(w) == l && fw_s(w) == s && fw_o(w) == o && fw_p(w) == p
+        && fw_version(w) == version && fw_reserved_ok(w) }), //[C03,C04,C10:spec.flag_word.roundtrip]
+{ }
+
+// ---- C14: validation options only restrict -----------------------------------------------------------------
+pub proof fn lemma_options_monotone(b: Seq<u8>, r: bool, v: bool, u: bool, r2: bool, v2: bool, u2: bool)
+    requires (r ==> r2), (v ==> v2), (u ==> u2), spec_message(b, r2, v2, u2) is Some,
+    ensures spec_message(b, r, v, u) == spec_message(b, r2, v2, u2), //[C14:spec.options.monotone]
+{ }
+pub proof fn lemma_options_exact(b: Seq<u8>, r: bool, v: bool, u: bool)
+    requires b.len() >= 2,
+    ensures
+        v && fw_version(be16(b)) != 2 ==> spec_message(b, r, v, u) is None, //[C14:spec.options.version_rejects]
+        r && !fw_reserved_ok(be16(b)) ==> spec_message(b, r, v, u) is None, //[C14:spec.options.reserved_rejects]
+        u && fw_t(be16(b)) && (fw_p(be16(b)) || fw_o(be16(b))) ==> spec_message(b, r, v, u) is None, //[C14:spec.options.unused_rejects]
+        // a check that cannot fire changes nothing
+        fw_version(be16(b)) == 2 ==> spec_message(b, r, true, u) == spec_message(b, r, false, u), //[C14:spec.options.version_exact]
+        fw_reserved_ok(be16(b)) ==> spec_message(b, true, v, u) == spec_message(b, false, v, u), //[C14:spec.options.reserved_exact]
+        !(fw_t(be16(b)) && (fw_p(be16(b)) || fw_o(be16(b)))) ==> spec_message(b, r, v, true) == spec_message(b, r, v, false), //[C14:spec.options.unused_exact]
+{ }
+
+// ---- C08: octets after the declared end have no influence ----------------------------------------------------
+pub proof fn lemma_control_suffix(w: int, u: bool, b: Seq<u8>, s: Seq<u8>)
+    requires spec_control(w, u, b) is Some,
+    ensures
+        spec_control(w, u, b + s) is Some,
+        spec_control(w, u, b + s)->Some_0.0 == spec_control(w, u, b)->Some_0.0, //[C08:spec.control.suffix_value]
+        spec_control(w, u, b + s)->Some_0.1 == spec_control(w, u, b)->Some_0.1 + s, //[C08:spec.control.suffix_rest]
+{
+    broadcast use group_spec_seq;
+    let length = be16(b);
+    let n = length - 12;
+    let body = b.skip(2).skip(2).skip(2).skip(2).skip(2);
+    let body2 = (b + s).skip(2).skip(2).skip(2).skip(2).skip(2);
+    assert(body2 =~= body + s);
+    assert(body2.take(n) =~= body.take(n));
+    assert(body2.skip(n) =~= body.skip(n) + s);
+    assert(be16(b + s) == be16(b)) by { assert((b + s).take(b.len() as int) =~= b); lemma_be16_prefix(b + s, b.len() as int); }
+    assert(be16((b + s).skip(2)) == be16(b.skip(2))) by {
+        assert((b + s).skip(2).take(b.len() - 2) =~= b.skip(2)); lemma_be16_prefix((b + s).skip(2), b.len() - 2); }
+    assert(be16((b + s).skip(2).skip(2)) == be16(b.skip(2).skip(2))) by {
+        assert((b + s).skip(2).skip(2).take(b.len() - 4) =~= b.skip(2).skip(2)); lemma_be16_prefix((b + s).skip(2).skip(2), b.len() - 4); }
+    assert(be16((b + s).skip(2).skip(2).skip(2)) == be16(b.skip(2).skip(2).skip(2))) by {
+        assert((b + s).skip(2).skip(2).skip(2).take(b.len() - 6) =~= b.skip(2).skip(2).skip(2));
+        lemma_be16_prefix((b + s).skip(2).skip(2).skip(2), b.len() - 6); }
+    assert(be16((b + s).skip(2).skip(2).skip(2).skip(2)) == be16(b.skip(2).skip(2).skip(2).skip(2))) by {
+        assert((b + s).skip(2).skip(2).skip(2).skip(2).take(b.len() - 8) =~= b.skip(2).skip(2).skip(2).skip(2));
+        lemma_be16_prefix((b + s).skip(2).skip(2).skip(2).skip(2), b.len() - 8); }
+}
+
+// ---- C11: decryption inverts encryption (any 16-octet hash) ----------------------------------------------------
+proof fn lemma_xor_inv(a: u8, k: u8)
+    ensures (a ^ k) ^ k == a,
+{ assert((a ^ k) ^ k == a) by (bit_vector); }
+
+pub proof fn lemma_decrypt_encrypt(p: Seq<u8>, t: Seq<u8>, secret: Seq<u8>, rv: Seq<u8>)
+    requires p.len() % 16 == 0, p.len() >= 16,
+    ensures decrypt(encrypt(p, t, secret, rv), t, secret, rv) == p, //[C11:spec.decrypt_encrypt]
+{
+    broadcast use crate::md5::axiom_md5_len;
+    let c = encrypt(p, t, secret, rv);
+    assert forall |k: int| 0 <= k < p.len() implies decrypt(c, t, secret, rv)[k] == p[k] by {
+        let i = k / 16;
+        let m = k % 16;
+        if i > 0 {
+            assert(c.subrange(16 * (i - 1), 16 * i) =~= cblock(p, t, secret, rv, i - 1)) by {
+                assert forall |mm: int| 0 <= mm < 16 implies c.subrange(16 * (i - 1), 16 * i)[mm] == #[trigger] cblock(p, t, secret, rv, i - 1)[mm] by {
+                    let kk = 16 * (i - 1) + mm;
+                    assert(kk / 16 == i - 1 && kk % 16 == mm);
+                }
+            }
+            assert(cblock(p, t, secret, rv, i)[m] == p.subrange(16 * i, 16 * i + 16)[m] ^ md5s(secret + cblock(p, t, secret, rv, i - 1))[m]);
+        } else {
+            assert(cblock(p, t, secret, rv, 0)[m] == p.subrange(0, 16)[m] ^ md5s(t + secret + rv)[m]);
+        }
+        lemma_xor_inv(p[k], dkey(c, t, secret, rv, i)[m]);
+    }
+    assert(decrypt(c, t, secret, rv) =~= p);
+}
+
+// hide then reveal at specification level, for every encodable non-hidden value
+pub proof fn lemma_reveal_hide(v: AvpV, secret: Seq<u8>, rv: Seq<u8>, lp: Seq<u8>, ap: Seq<u8>)
+    requires
+        spec_payload_ok(v), !v.hidden, 0 <= v.kind < 65536, ap.len() == 16,
+        2 + spec_payload_enc(v).len() + lp.len() <= 1008,        // the domain stated by C11
+        spec_payload_dec(v.kind, spec_payload_enc(v)) == Some(v),   // per-kind round trip (lemma_pdec_penc_K)
+    ensures
+        spec_reveal(v.kind, spec_hide_value(v.kind, spec_payload_enc(v), secret, rv, lp, ap), secret, rv) == RecV::Ok(v), //[C11:spec.reveal_hide]
+{
+    broadcast use group_spec_seq;
+    let payload = spec_payload_enc(v);
+    let p = spec_hide_plain(payload, lp, ap);
+    let body = enc16(6 + payload.len() as int) + payload + lp;
+    let pad = (16 - body.len() % 16) % 16;
+    assert(p == body + ap.take(pad));
+    assert(p.len() % 16 == 0 && p.len() >= 16);
+    lemma_decrypt_encrypt(p, enc16(v.kind), secret, rv);
+    let c = spec_hide_value(v.kind, payload, secret, rv, lp, ap);
+    assert(c.len() == p.len());
+    assert(p =~= enc16(6 + payload.len() as int) + (payload + lp + ap.take(pad)));
+    assert(be16(p) == 6 + payload.len());
+    assert(p.skip(2).take(payload.len() as int) =~= payload);
+    assert(spec_kind_assigned(v.kind));
+}
+
+// ---- C04: data messages survive encode then decode --------------------------------------------------------------
+pub open spec fn data_encodable(d: DataV, total: int) -> bool {
+    &&& d.data.len() > 0
+    &&& 0 <= d.tunnel < 65536 && 0 <= d.session < 65536
+    &&& (d.ns_nr is Some ==> 0 <= d.ns_nr->Some_0.0 < 65536 && 0 <= d.ns_nr->Some_0.1 < 65536)
+    &&& (d.offset is Some ==> 0 <= d.offset->Some_0 <= d.data.len() - 1)
+    &&& (d.length is Some ==> d.length->Some_0 == total && total < 65536)
+}
+pub proof fn lemma_data_roundtrip(d: DataV)
+    requires data_encodable(d, spec_enc_data(d, 2).len() as int),
+    ensures ({
+        let e = spec_enc_data(d, 2);
+        let n: int = match d.offset { Some(o) => o, None => 0 };
+        let r = spec_message(e, true, true, true);
+        r is Some && r->Some_0.1.len() == 0 && r->Some_0.0 is Data
+        && data_eq(r->Some_0.0->Data_0, DataV { prio: d.prio, length: d.length, tunnel: d.tunnel, session: d.session, ns_nr: d.ns_nr, offset: None, data: d.data.skip(n) })
+    }), //[C04:spec.data.roundtrip]
+{
+    broadcast use group_spec_seq;
+    let w = spec_flag_word(false, d.length is Some, d.ns_nr is Some, d.offset is Some, d.prio, 2);
+    lemma_flag_word(false, d.length is Some, d.ns_nr is Some, d.offset is Some, d.prio, 2);
+    let e = spec_enc_data(d, 2);
+    let b0 = e.skip(2);
+    let t_len = match d.length { Some(l) => enc16(l), None => Seq::<u8>::empty() };
+    let t_ns = match d.ns_nr { Some(p) => enc16(p.0) + enc16(p.1), None => Seq::<u8>::empty() };
+    let t_off = match d.offset { Some(o) => enc16(o), None => Seq::<u8>::empty() };
+    let tail3 = t_off + d.data;
+    let tail2 = t_ns + tail3;
+    let tail1 = enc16(d.tunnel) + (enc16(d.session) + tail2);
+    assert(e == enc16(w) + (t_len + tail1));
+    assert(b0 =~= t_len + tail1);
+    let b1 = if d.length is Some { b0.skip(2) } else { b0 };
+    assert(b1 =~= tail1);
+    assert(b1.skip(2) =~= enc16(d.session) + tail2);
+    let b2 = b1.skip(2).skip(2);
+    assert(b2 =~= tail2);
+    let b3 = if d.ns_nr is Some { b2.skip(2).skip(2) } else { b2 };
+    if d.ns_nr is Some {
+        let pr = d.ns_nr->Some_0;
+        assert(tail2 =~= enc16(pr.0) + (enc16(pr.1) + tail3));
+        assert(b2.skip(2) =~= enc16(pr.1) + tail3);
+    }
+    assert(b3 =~= tail3);
+    let b4 = if d.offset is Some { b3.skip(2) } else { b3 };
+    assert(b4 =~= d.data);
+    let n: int = match d.offset { Some(o) => o, None => 0 };
+    assert(b4.skip(n).take(d.data.len() - n) =~= d.data.skip(n));
+    assert(b4.skip(n).skip(d.data.len() - n) =~= Seq::<u8>::empty());
+}
+
 } // verus!
 } // mod vf_spec
